@@ -5,13 +5,12 @@ MANIFEST = dict(
     text="Fold construction and leave-one-out data flow decided on the real bodies for bounded concrete shapes with symbolic data: the random "
          "group table is a partition of the objects (every object in exactly one cell, for group counts that do not divide the object count); "
          "the split puts exactly the group's rows in the test part and exactly the other rows in the training part, with every response "
-         "column, including more responses than predictors; in LeaveOneOut each worker is started with training operands equal to the data "
-         "minus the held-out object and the test operand equal to that object, each object is held out exactly once for every thread count, "
+         "column, including more responses than predictors; in LeaveOneOut and in KFoldCV with user labels (unbalanced, non-contiguous) each worker is started with training operands equal to the data "
+         "minus the held-out object(s) and the test operand equal to that object, each object is held out exactly once for every thread count, "
          "the stored prediction is that worker's output, residual = prediction - matching response. Learners enter by contract (they read "
          "only the operands they are given), which is what makes the prediction out-of-sample.",
     note="Bounded shapes (objects <= 4, predictors <= 2, responses <= 3, threads <= 3). Learners (PLS/MLR) are represented by their contract "
-         "through a pthread monitor; determinism of the learner is assumed. KFoldCV and BootstrapRandomGroupsCV drivers are not yet under "
-         "contract (their building blocks, the split and the group generator, are). Termination of the rejection loop is not decided. "
+         "through a pthread monitor; determinism of the learner is assumed. BootstrapRandomGroupsCV is not yet under contract (its building blocks, the split and the group generator, are). Termination of the rejection loop is not decided. "
          "'Equals a model refitted through the public API' as a numerical equality and finiteness of predictions are not decided.",
     technique="CBMC on the real cross-validation bodies with a pthread monitor playing the learner contract; loop contract on the rejection loop; bounded shapes")
 
@@ -34,6 +33,17 @@ def jobs(tier):
             J.append(Job("LeaveOneOut@" + tag, "C05/cv.c", entry="h_LeaveOneOut", srcs=SRCS, kind="bounded", defines=d, unwind=max(n, xc, ny * max(nlv, 1), nth) + 3,
                          functions=["LeaveOneOut"], bound="concrete shape/thread count %s; data symbolic; residual identity split A (y=0) / B (prediction=0)" % tag,
                          clause="LOO: training operands = data minus held-out object, each object once, prediction and residual wiring (%s learner)" % ("PLS" if nlv else "MLR")))
+    # KFoldCV with user labels: unbalanced, non-contiguous (an unused label value gives an empty fold), one fold only
+    kcfg = [("{0,2,0,2}", 4, 2), ("{1,1,0,1}", 4, 3), ("{0,0,0}", 3, 2), ("{2,0,1,1,0}", 5, 2)] if tier == "quick" else \
+           [("{0,2,0,2}", 4, 2), ("{1,1,0,1}", 4, 3), ("{0,0,0}", 3, 2), ("{2,0,1,1,0}", 5, 2), ("{0,1,2,3}", 4, 4), ("{3,0,0,3}", 4, 1)]
+    for (lab, n, nth) in kcfg:
+        for (xc, ny, nlv) in [(2, 1, 0), (2, 2, 2)]:
+            for inst in ("A", "B"):
+                d = {"VC_NOBJ": n, "VC_XC": xc, "VC_NY": ny, "VC_NLV": nlv, "VC_NTH": nth, "VC_LAB": lab, ("VC_ZERO_Y" if inst == "A" else "VC_ZERO_PRED"): None}
+                tag = "labels=%s,xc=%d,ny=%d,nlv=%d,nth=%d,%s" % (lab.replace(",", ""), xc, ny, nlv, nth, inst)
+                J.append(Job("KFoldCV@" + tag, "C05/cv.c", entry="h_KFoldCV", srcs=SRCS, kind="bounded", defines=d, unwind=max(n, xc, ny * max(nlv, 1), nth) + 4,
+                             functions=["KFoldCV", "kfold_group_train_test_split"], bound="user labels %s, thread count %d; data symbolic; residual identity split A/B" % (lab, nth),
+                             clause="k-fold with user labels: folds are a partition, each worker gets exactly the other folds, prediction and residual wiring (%s learner)" % ("PLS" if nlv else "MLR")))
     # split: (nobj, xc, ny, G, K)
     for (n, xc, ny, g, k) in ([(4, 1, 2, 2, 2), (3, 2, 3, 3, 1), (4, 2, 1, 2, 3), (2, 1, 3, 1, 2)] if tier == "quick" else
                               [(4, 1, 2, 2, 2), (3, 2, 3, 3, 1), (4, 2, 1, 2, 3), (2, 1, 3, 1, 2), (5, 1, 2, 3, 2), (4, 2, 3, 4, 1)]):
